@@ -176,8 +176,15 @@ impl<W: Write> ProtocolWriter<W> for DefaultProtocolWriter<W> {
             self.write_type_and_value(FSM_PROTOCOL_TYPE_INT_52BIT, value, 52);
         } else if value < (1u64 << 60) {
             self.write_type_and_value(FSM_PROTOCOL_TYPE_INT_60BIT, value, 60);
-        } else {
-            self.write_type_and_value(FSM_PROTOCOL_TYPE_INT_68BIT, value, 64);
+        } else if self.ok {
+            // All 64 bits follow the type byte, its value nibble stays empty.
+            let mut r = self.writer.write_u8(FSM_PROTOCOL_TYPE_INT_68BIT);
+            let mut size = 64u8;
+            while size > 0 && r.is_ok() {
+                size -= 8;
+                r = self.writer.write_u8((value >> size) as u8);
+            }
+            self.eval_result(r);
         }
     }
 
